@@ -212,6 +212,7 @@ def run(rep):
         huge = sorted({r["pf"] for r in items if r["kind"] == "huge"})
         allocating = sorted({r["pf"] for r in items if r["kind"] == "allocating"})
         oppairs = [list(v) for v in vecs if "oppair" in vgroups[v]]
+        usevecs = [list(v) for v in vecs if "use" in vgroups[v]]
         main = [v for v in vecs if "kinds" in vgroups[v]]
         classes = sorted({a for v in vecs for a in v})
         if (len(main) < 800 or len(huge) < 3 or len(allocating) < 10 or not any(len(v) == 3 for v in main) or len(ops) < 30 or len(use) < 10
@@ -233,7 +234,7 @@ def run(rep):
         ecases = []
         nslice = 12
         for recv in sorted(RECEIVERS):
-            mine = [v for v in vecs if vgroups[v] & rgroups[recv]]
+            mine = [v for v in vecs if (vgroups[v] - {"use", "oppair"}) & rgroups[recv]]
             myops = [op for op in ops if op["g"] in rgroups[recv]]
             if not mine:
                 raise Machinery("receiver %s gets no vector" % recv)
@@ -243,7 +244,8 @@ def run(rep):
                     # the second representation only differs for the vectors that contain a number
                     vs = [list(v) for v in mine[k::ns] if intrep == "lit" or any(a in py_classes for a in v)]
                     ecases.append({"kind": "grid", "recv": recv, "vecs": vs, "allocating": allocating, "huge": huge, "intrep": intrep,
-                                   "ops": myops if intrep == "lit" else [], "oppairs": oppairs, "use": use, "params": params})
+                                   "ops": myops if intrep == "lit" else [], "oppairs": oppairs, "use": use, "usevecs": usevecs,
+                                   "params": params})
         stats["nrecv"] = len(RECEIVERS)
         process(rep, rng, ecases, stats)
 
@@ -374,9 +376,12 @@ def process(rep, rng, ecases, stats, flush=False):
     byid = {c["id"]: c for c in ecases}
     order = list(ecases)
     rng.shuffle(order)                               # spread the slow cases over the children
+    import resource, time as _time
+    ru0, t0 = resource.getrusage(resource.RUSAGE_CHILDREN), _time.time()
     results = engine.run_cases(rep.pid, order, driver=DRIVER, timeout=3000)
     results = reobserve_hangs(rep, results, byid, stats)
-    recs, srcs = [], {}
+    ru1, t1 = resource.getrusage(resource.RUSAGE_CHILDREN), _time.time()
+    recs, srcs, msgs = [], {}, {}
     for r in results:
         c = byid[r["id"]]
         if c["kind"] == "cls":
@@ -425,7 +430,10 @@ def process(rep, rng, ecases, stats, flush=False):
             raise Machinery("grid slice of receiver %s lost (%r)" % (c["recv"], r.get("out")))
         elif "fname" in r:
             i = len(recs)
-            recs.append(rec(i, "call", out=r["out"], fname=r["fname"], args=r["args"], lex=r.get("use")))
+            # (a call record carries only the fields JudgeCall reads; the message stays on this side for the report)
+            recs.append({"id": i, "kind": "call", "out": dict(r["out"], msg=""), "lex": dict(r.get("use") or NOLEX, msg=""),
+                         "fname": r["fname"], "args": r["args"]})
+            msgs[i] = r["out"].get("msg", "") or (r.get("use") or {}).get("msg", "")
             srcs[i] = "%s %s" % (r["recv"], r["src"])
             stats["ncalls"] += 1
             stats["nops"] = stats.get("nops", 0) + (r["form"] == "op")
@@ -433,6 +441,13 @@ def process(rep, rng, ecases, stats, flush=False):
     del results, byid, order
     verdicts, st, tr, wall = judge_retry(rep, recs, module="C04")
     rep.add_judge(len(recs), st, tr)
+    ru2, t2 = resource.getrusage(resource.RUSAGE_CHILDREN), _time.time()
+    # measured cost of the two halves of this round (CPU seconds of the child processes; the machine is shared)
+    tm = rep.notes.setdefault("timing", {"engine_cpu_s": 0.0, "engine_wall_s": 0.0, "judge_cpu_s": 0.0, "judge_wall_s": 0.0})
+    tm["engine_cpu_s"] = round(tm["engine_cpu_s"] + (ru1.ru_utime + ru1.ru_stime) - (ru0.ru_utime + ru0.ru_stime), 1)
+    tm["engine_wall_s"] = round(tm["engine_wall_s"] + t1 - t0, 1)
+    tm["judge_cpu_s"] = round(tm["judge_cpu_s"] + (ru2.ru_utime + ru2.ru_stime) - (ru1.ru_utime + ru1.ru_stime), 1)
+    tm["judge_wall_s"] = round(tm["judge_wall_s"] + t2 - t1, 1)
     stats["recs"] += len(recs)
     got = {v["id"]: v for v in verdicts}
     if len(got) != len(recs):
@@ -445,6 +460,9 @@ def process(rep, rng, ecases, stats, flush=False):
             continue
         if v["v"] == "unsupported":
             raise Machinery("judge called a generated case unsupported (%s): %s" % (v["why"], srcs[i]))
-        rep.mismatch(srcs[i], {"why": v["why"], "dev": v.get("dev", ""), "out": r["out"], "lex": r["lex"], "args": r["args"],
-                               "fname": r["fname"], "case": {"m": r["kind"]}, "actual": {"o": r["out"]["o"], "cls": r["out"]["type"] + "@" + r["out"]["where"]}},
+        bad = r["out"]
+        if r["kind"] == "call" and r["lex"]["o"] != "none" and r["out"]["o"] in ("value", "jserror", "syntax", "timelimit", "memlimit"):
+            bad = r["lex"]                           # the call itself is typed: the mismatch is about the use of its result
+        rep.mismatch(srcs[i], {"why": v["why"], "dev": v.get("dev", ""), "out": r["out"], "lex": r["lex"], "args": r["args"], "msg": msgs.get(i, ""),
+                               "fname": r["fname"], "case": {"m": r["kind"]}, "actual": {"o": bad["o"], "cls": bad["type"] + "@" + bad["where"]}},
                      dev=v.get("dev", ""))
